@@ -95,8 +95,21 @@ class World(object):
         from ioflo.aio.http import serving
         from ioflo.aio.tcp import ServerTls
         import socket
+        host = None
         if name in ("A", "B"):
             srv = hg.loop_server(self.store, timeout=60.0)
+            scheme = "http"
+        elif name == "C":
+            # another host that listens on the SAME port number as A (in real life: host1:80 -> host2:80)
+            from ioflo.aio.tcp import Server
+            host = net.host_alt()
+            if host is None:
+                raise RuntimeError("no second loopback address")
+            srv = Server(ha=(host, self.server("A")["port"]), store=self.store, timeout=60.0)
+            if not srv.reopen():
+                raise RuntimeError("cannot open the second host's server on the first host's port")
+            srv.eha = srv.ha
+            srv.ss.setsockopt(socket.IPPROTO_TCP, socket.TCP_NODELAY, 1)
             scheme = "http"
         else:
             # the test certificates are for localhost, so this one stays on 127.0.0.1, on a port below the ephemeral range
@@ -112,7 +125,7 @@ class World(object):
             scheme = "https"
         valet = serving.Valet(servant=srv, app=self.app_for(name), store=self.store)
         self.servers[name] = {"valet": valet, "port": srv.ha[1], "scheme": scheme,
-                              "host": "localhost" if scheme == "https" else net.host()}
+                              "host": "localhost" if scheme == "https" else (host or net.host())}
         return self.servers[name]
 
     def trust_test_ca(self):
@@ -156,10 +169,11 @@ def enc_query(q):
     return "&".join("%s=%s" % (k, quote(v, safe="").replace("%20", "+") if " " in v and len(v) % 2 else quote(v, safe="")) for k, v in q)
 
 
-def gen_chain(rng, world, tls):
-    """Returns (start, hops, final body, table) -- ground truth first, Location text derived from it."""
-    names = ["A", "B"] + (["S", "T"] if tls else [])
-    cur = rng.choice(["S", "T"] if tls and rng.random() < 0.6 else ["A", "B"])
+def gen_chain(rng, world, tls, other="B"):
+    """Returns (start, hops, final body, table) -- ground truth first, Location text derived from it.
+    other: the second plain server, "B" (own port) or "C" (another host on A's port number)"""
+    names = ["A", other] + (["S", "T"] if tls else [])
+    cur = rng.choice(["S", "T"] if tls and rng.random() < 0.6 else ["A", other])
     path, query = gen_path(rng), gen_query(rng)
     start = {"server": cur, "path": path, "query": query}
     hops = []
@@ -215,7 +229,16 @@ def one_case(ctx, world, rng, idx, deadline):
     import socket
     tls = (idx % 6 == 5)
     tag = "c%d-%d" % (ctx.job["index"] if ctx.job else 0, idx)
-    start, hops = gen_chain(rng, world, tls)
+    other = "B"
+    if idx % 3 == 1:
+        try:
+            world.server("C")
+            other = "C"
+        except (RuntimeError, OSError):
+            ctx.hit("second_host_on_the_same_port_unavailable")
+    start, hops = gen_chain(rng, world, tls, other)
+    if any({h["from"], h["to"]} == {"A", "C"} for h in hops):
+        ctx.hit("redirects_between_hosts_on_the_same_port")
     final_body = ("final %s" % tag).encode()
     world.table.clear()
     del world.seen[:]
@@ -450,6 +473,7 @@ def run(ctx):
     ctx.floor("second_exchange_by_transmit", total // 30)
     ctx.floor("downgrade_cases", total // 60)
     ctx.floor("downgrade_cases_on_a_supplied_connector", total // 400)
+    ctx.floor("redirects_between_hosts_on_the_same_port", total // 30)
     for f, d in (("abs", 4), ("abspath", 10), ("relpath", 10), ("queryonly", 20), ("netpath", 8)):
         ctx.floor("form:" + f, total // d)
     for st in (300, 301, 302, 303, 307, 308):
